@@ -110,3 +110,86 @@ Proof.
     + inv H. exists input. split; [reflexivity|constructor].
     + inv H. exists input. split; [reflexivity|constructor].
 Qed.
+
+(* nesting to depth 64 (the property's quantifier) fits the limit the source has now *)
+From Icv Require Import Codec.JsProofs Codec.JsRoundtrip Facts.Facts_c20.
+Theorem js_depth64_fits (js_flt : Type) (v : js_value js_flt) :
+  js_depth _ v <= 64 -> js_fits _ f_js_max_depth 0 v.
+Proof.
+  intros H. unfold js_fits. destruct f_js_max_depth as [m|] eqn:E; [|exact I].
+  assert (64 < m) as Hm. { pose proof (eq_refl : match f_js_max_depth with Some m => 64 <? m | None => true end = true) as C. rewrite E in C. lia. }
+  lia.
+Qed.
+
+(* ---------------- the JSON round-trip oracle accepts what the model computes (rests on js_roundtrip) *)
+From Coq Require Import Sorting.Sorted.
+Section JsOracleProofs.
+Variable js_flt : Type.
+Variable js_fprint : js_flt -> list Z.
+Variable js_fparse : list Z -> option js_flt.
+Variable js_lim : option Z.
+Variable js_feqb : js_flt -> js_flt -> bool.
+Variable js_fofz : Z -> js_flt.
+Hypothesis js_feqb_refl : forall x, js_feqb x x = true.
+
+Lemma js_value_eqb_refl : forall v : js_value js_flt, js_value_eqb js_flt js_feqb js_fofz v v = true.
+Proof.
+  apply js_value_rect'; cbn [js_value_eqb]; intros.
+  - reflexivity.
+  - apply Bool.eqb_reflx.
+  - rewrite Z.eqb_refl. reflexivity.
+  - apply js_feqb_refl.
+  - apply cd_bytes_eqb_refl.
+  - induction H as [|x l Hx Hl IH]; [reflexivity|]. rewrite Hx. exact IH.
+  - induction H as [|[k x] l Hx Hl IH]; [reflexivity|]. cbn [snd] in Hx. rewrite cd_bytes_eqb_refl, Hx. exact IH.
+Qed.
+
+Lemma js_norm_members : forall (l acc : list (list Z * js_value js_flt)),
+  Forall (fun kv => js_sanitize (fst kv) = fst kv /\ js_norm js_flt (snd kv) = snd kv) l ->
+  StronglySorted (js_key_lt js_flt) l -> (forall a b, In a acc -> In b l -> js_key_lt js_flt a b) ->
+  fold_left (fun acc kv => js_obj_set js_flt (js_sanitize (fst kv)) (js_norm js_flt (snd kv)) acc) l acc = acc ++ l.
+Proof.
+  induction l as [|[k x] t IH]; intros acc Hid Hss Hacc; cbn [fold_left]; [rewrite app_nil_r; reflexivity|].
+  inversion Hid as [|? ? Hkx Ht]; subst. destruct Hkx as [Hk Hx]. inversion Hss as [|? ? Hst Hlt]; subst. cbn [fst snd] in *. rewrite Hk, Hx.
+  rewrite (js_obj_set_append js_flt js_fparse).
+  - rewrite IH; [rewrite <- app_assoc; reflexivity|assumption|assumption|].
+    intros a b Ha Hb. apply in_app_or in Ha as [Ha|[<-|[]]].
+    + apply Hacc; [assumption|right; assumption].
+    + exact (proj1 (Forall_forall _ _) Hlt b Hb).
+  - apply Forall_forall. intros a Ha. apply (Hacc a (k, x) Ha). left. reflexivity.
+Qed.
+
+Lemma js_norm_id : forall v : js_value js_flt, js_wf js_flt v -> js_sorted js_flt v -> js_norm js_flt v = v.
+Proof.
+  apply (js_value_rect' js_flt (fun v => js_wf js_flt v -> js_sorted js_flt v -> js_norm js_flt v = v)); cbn [js_norm]; try reflexivity.
+  - intros s Hw _. inv Hw. rewrite js_sanitize_valid by assumption. reflexivity.
+  - intros l IH Hw Hs. inv Hw. inv Hs. f_equal.
+    induction l as [|x l IHl]; [reflexivity|]. inv IH. inv H0. inv H1. cbn [map]. f_equal; auto.
+  - intros kvs IH Hw Hs. inv Hw. inversion Hs as [| | | | | |? Hsv Hss]; subst. f_equal.
+    rewrite js_norm_members; [reflexivity| |assumption|intros a b []].
+    apply Forall_forall. intros kv Hin. rewrite Forall_forall in IH, H0, Hsv.
+    destruct (H0 kv Hin) as [(cps & Hc & Ek) Hwv]. split; [rewrite Ek; apply js_sanitize_valid; assumption|].
+    apply IH; auto.
+Qed.
+
+Hypothesis js_fparse_fprint : forall x, js_fparse (js_fprint x) = Some x.
+Hypothesis js_fprint_token : forall x rest,
+  match rest with [] => True | b :: _ => b = 44 \/ b = 93 \/ b = 125 end ->
+  js_lex_num (js_fprint x ++ rest) = Some (js_fprint x, false, rest).
+Hypothesis js_fprint_ascii : forall x, exists b t, js_fprint x = b :: t /\ (b = 45 \/ 48 <= b <= 57) /\ Forall (fun c => 0 <= c < 128) (b :: t).
+
+(* the oracle run over implementation traces accepts the model's own round trip of every value of the data model *)
+Theorem js_oracle_rt_accepts_model (v : js_value js_flt) :
+  js_wf js_flt v -> js_sorted js_flt v -> js_fits js_flt js_lim 0 v ->
+  js_oracle_rt js_flt js_feqb js_fofz v (js_decode js_flt js_fparse js_lim (js_encode js_flt js_fprint v)) = true.
+Proof.
+  intros Hw Hs Hf. rewrite (js_roundtrip js_flt js_fprint js_fparse js_lim js_fparse_fprint js_fprint_token js_fprint_ascii v Hw Hs Hf).
+  unfold js_oracle_rt. rewrite js_norm_id by assumption. apply js_value_eqb_refl.
+Qed.
+
+(* and, trivially, the hostile-input oracles compare with the model itself *)
+Theorem js_oracle_dec_accepts_model input :
+  js_oracle_dec js_flt js_fparse js_lim js_feqb js_fofz input (js_decode js_flt js_fparse js_lim input) = true.
+Proof. unfold js_oracle_dec. destruct (js_decode js_flt js_fparse js_lim input); [apply js_value_eqb_refl|reflexivity]. Qed.
+
+End JsOracleProofs.
